@@ -157,6 +157,13 @@ func (tr *Tracer) QueuedLen() int {
 	return len(tr.Queued)
 }
 
+// QueuedSnapshot returns the queued mutations in MutationQueued order.
+func (tr *Tracer) QueuedSnapshot() []*am.Mutation {
+	tr.mu.Lock()
+	defer tr.mu.Unlock()
+	return append([]*am.Mutation{}, tr.Queued...)
+}
+
 // Len returns the number of finished transitions.
 func (tr *Tracer) Len() int {
 	tr.mu.Lock()
